@@ -67,6 +67,7 @@ type vpReg struct {
 	descHi   int
 	added    bool
 	descPtrs []*Descriptor // the descriptors this registration produced (some may have been removed again)
+	doomed   bool          // generated to be rejected by godi
 }
 
 type vpClose struct {
@@ -83,12 +84,14 @@ type vpWorld struct {
 	prov   Provider
 	built  bool
 
-	scopes   map[int]Scope // model scope id -> handle (0 = root scope, reachable only through the provider)
-	live     []int         // model ids of scopes created and not known closed
-	closedSc map[int]bool
-	ctxs     map[int]context.Context
-	cancels  map[int]context.CancelFunc
-	ctxPar   map[int]int
+	ctxSeenMu sync.Mutex
+	ctxSeen   map[int]context.Context // scope number -> the context constructors running in it received
+	scopes    map[int]Scope           // model scope id -> handle (0 = root scope, reachable only through the provider)
+	live      []int                   // model ids of scopes created and not known closed
+	closedSc  map[int]bool
+	ctxs      map[int]context.Context
+	cancels   map[int]context.CancelFunc
+	ctxPar    map[int]int
 
 	typeIDs map[reflect.Type]int
 	keyIDs  map[string]int
@@ -373,6 +376,12 @@ func (w *vpWorld) flushEvents() string {
 func (w *vpWorld) closed(b *vpBase) error {
 	w.mu.Lock() // after a cancellation sibling scopes are closed by concurrent watcher goroutines
 	defer w.mu.Unlock()
+	if b.Inst == 0 {
+		// the value a constructor produced for an output whose identity was removed from the collection
+		// again: godi must neither store nor own it, so it can never reach a disposal list
+		w.fail("C04,C17,C10,C01", "constructor %d: the value produced for output %d, whose registration was removed before Build, was stored by the container (it is being closed)", b.Ctor, b.Out)
+		return nil
+	}
 	bad := w.cbeh[[2]int{b.Ctor, b.Inv}]
 	w.closes = append(w.closes, vpClose{b, !bad})
 	// monitors: C10 exactly once / not early
@@ -471,6 +480,11 @@ func (w *vpWorld) makeConstructor(r *vpReg) any {
 		scN := -1
 		if !scV.IsNil() {
 			scN = scopeNum(scV.Interface().(Scope))
+			if !cxV.IsNil() {
+				w.ctxSeenMu.Lock()
+				w.ctxSeen[scN] = cxV.Interface().(context.Context) // what the scope handed to user code as its context
+				w.ctxSeenMu.Unlock()
+			}
 			if !w.buildDone && w.topo == nil {
 				w.captureTopo(scV.Interface().(*scope).rootProvider)
 			}
@@ -756,7 +770,7 @@ func (r *vpRun) emit(op, obs string) {
 }
 
 func (r *vpRun) newWorld(rng *rand.Rand) *vpWorld {
-	w := &vpWorld{rng: rng, scopes: map[int]Scope{}, closedSc: map[int]bool{}, ctxs: map[int]context.Context{}, cancels: map[int]context.CancelFunc{}, ctxPar: map[int]int{},
+	w := &vpWorld{rng: rng, ctxSeen: map[int]context.Context{}, scopes: map[int]Scope{}, closedSc: map[int]bool{}, ctxs: map[int]context.Context{}, cancels: map[int]context.CancelFunc{}, ctxPar: map[int]int{},
 		typeIDs: map[reflect.Type]int{}, keyIDs: map[string]int{}, grpIDs: map[string]int{},
 		beh: map[[2]int]string{}, cbeh: map[[2]int]bool{}, nbeh: map[[2]int]int{}, calls: map[int]int{}, byInst: map[int]*vpBase{},
 		singletonOf: map[string]*vpBase{}, scopedOf: map[string]*vpBase{}, handed: map[*vpBase]string{}}
@@ -804,9 +818,17 @@ func (r *vpRun) removeAndReplace(w *vpWorld) {
 		if skip {
 			continue
 		}
+		first := true
 		for k, o := range reg.outs {
 			if !o.hidden && !o.removed && o.group == "" { // group members cannot be removed
 				cands = append(cands, cand{reg, k})
+				if len(reg.outs) > 1 { // one output of several: the surviving siblings still share the constructor
+					cands = append(cands, cand{reg, k}, cand{reg, k})
+					if first { // the first descriptor of the registration is the one shortcuts like to look at
+						cands = append(cands, cand{reg, k}, cand{reg, k})
+					}
+				}
+				first = false
 			}
 		}
 	}
@@ -886,6 +908,9 @@ func (r *vpRun) register(w *vpWorld) {
 		reg.descLo, reg.descHi = lo, len(w.coll.allDescriptors)
 		reg.descPtrs = append([]*Descriptor(nil), w.coll.allDescriptors[lo:]...)
 		reg.added = err == nil
+		if reg.doomed && err == nil {
+			w.fail("C17", "a result object whose second field claims an identity that is already registered was accepted")
+		}
 		if err != nil {
 			r.stats["reg_rejected"]++
 			if reg.descHi != lo {
@@ -1291,6 +1316,15 @@ func (r *vpRun) createScope(w *vpWorld, from int, ctx int) {
 				w.fail("C10,C14,C15", "CreateScope failed but instance i%d created for the half-made scope s%d was closed %d times", b.Inst, b.ScopeN, b.closes.Load())
 			}
 		}
+		// ... and its context must have been cancelled (C14: a failed creation leaves nothing behind)
+		w.ctxSeenMu.Lock()
+		for scN, cx := range w.ctxSeen {
+			if _, known := w.scopes[scN]; !known && scN > 0 && cx.Err() == nil {
+				w.fail("C14", "CreateScope failed (%v) but the context of the half-made scope s%d, which its initializers received, is not cancelled", err, scN)
+				delete(w.ctxSeen, scN)
+			}
+		}
+		w.ctxSeenMu.Unlock()
 		r.emit(op, w.showErr(err)+w.flushEvents())
 		return
 	}
@@ -1995,6 +2029,38 @@ func (w *vpWorld) generate(o vpGenOpts) {
 			break
 		}
 	}
+	// a registration godi must REJECT as a whole, after it has already accepted one of its outputs: a result
+	// object whose first field is a new group member (or a new named service) and whose second field claims an
+	// identity that is taken. Nothing of it may stay behind in any of the collection's views (C17), hence
+	// nothing at run time either: the group has no phantom member (C04/C08).
+	if o.forms && rng.Intn(4) == 0 {
+		var taken *vpIdentity
+		for i := range idents {
+			if idents[i].name == "" && idents[i].group == "" && w.regs[idents[i].reg].form != "inst" {
+				for sl := range vpSlots {
+					if slotType(sl) == idents[i].typ {
+						taken = &idents[i]
+					}
+				}
+			}
+		}
+		if taken != nil {
+			slotOf := func(t reflect.Type) int {
+				for sl := range vpSlots {
+					if slotType(sl) == t {
+						return sl
+					}
+				}
+				return 0
+			}
+			first := vpOut{typ: taken.typ, slot: slotOf(taken.typ), group: fmt.Sprintf("g%d", rng.Intn(3))}
+			if rng.Intn(2) == 0 {
+				first = vpOut{typ: taken.typ, slot: slotOf(taken.typ), name: "rej" + strconv.Itoa(len(w.regs))}
+			}
+			second := vpOut{typ: taken.typ, slot: slotOf(taken.typ)} // already registered: the whole call is rejected
+			w.regs = append(w.regs, &vpReg{life: Lifetime(rng.Intn(3)), form: "ro", outs: []vpOut{first, second}, doomed: true})
+		}
+	}
 	// renumber (some iterations were skipped)
 	for i, reg := range w.regs {
 		reg.idx = i
@@ -2099,6 +2165,7 @@ func (r *vpRun) scenario(rng *rand.Rand, o vpGenOpts) {
 	scopeCtx := map[int]int{}
 	nops := 4 + rng.Intn(14)
 	nctx := 0
+	privateCtx := map[int]bool{}
 	var identities []vpIdentity
 	for _, reg := range w.regs {
 		for _, out := range reg.outs {
@@ -2132,8 +2199,18 @@ func (r *vpRun) scenario(rng *rand.Rand, o vpGenOpts) {
 				par := 0
 				var pc context.Context = context.Background()
 				if nctx > 1 && rng.Intn(2) == 0 {
-					par = 1 + rng.Intn(nctx-1)
-					pc = w.ctxs[par]
+					if cand := 1 + rng.Intn(nctx-1); !privateCtx[cand] {
+						par = cand
+						pc = w.ctxs[par]
+					}
+				}
+				if par == 0 && from >= 0 && !w.closedSc[from] && rng.Intn(3) == 0 {
+					// derived from the creating scope's own context (a handler opening a sub-scope with a
+					// timeout): used for this one child only, so it behaves like any fresh context —
+					// cancelling it closes the child, closing the creating scope cancels it
+					pc = w.scopes[from].Context()
+					privateCtx[nctx] = true
+					r.stats["ctx_derived_from_scope"]++
 				}
 				pc = context.WithValue(pc, vpCtxKey{}, nctx)
 				cx, cancel := context.WithCancel(pc)
@@ -2141,7 +2218,9 @@ func (r *vpRun) scenario(rng *rand.Rand, o vpGenOpts) {
 				r.emit(fmt.Sprintf("p ctx %d %d", nctx, par), "ok")
 				ctx = nctx
 			} else if nctx > 0 && rng.Intn(4) == 0 {
-				ctx = 1 + rng.Intn(nctx)
+				if cand := 1 + rng.Intn(nctx); !privateCtx[cand] {
+					ctx = cand
+				}
 			}
 			before := len(w.live)
 			if w.provClosed && from < 0 {
@@ -2530,6 +2609,131 @@ func (r *vpRun) midCreation(rng *rand.Rand) {
 	r.emit("p verdict", "ok")
 }
 
+// overlappingClose: several Close calls overlap while an instance's Close method is running and fails.
+// Deterministic (the instance's Close blocks on a channel), monitors only (C12): the call that performs the
+// disposal reports the failure, every other overlapping Close of the same scope waits for it and returns nil,
+// the Close of an ancestor (or of the provider) that overlaps it reports the failure as well, and the instance
+// is closed exactly once.
+type voF struct {
+	entered chan struct{}
+	release chan struct{}
+	closes  atomic.Int32
+}
+
+func (f *voF) Close() error {
+	f.closes.Add(1)
+	f.entered <- struct{}{}
+	<-f.release
+	return errors.New("close of F failed")
+}
+
+func (r *vpRun) overlappingClose(rng *rand.Rand) {
+	w := r.newWorld(rng)
+	mode := rng.Intn(3) // 0: same scope; 1: parent scope over a child in flight; 2: provider over a scope in flight
+	f := &voF{entered: make(chan struct{}, 4), release: make(chan struct{})}
+	c := w.coll
+	if err := c.AddScoped(func() *voF { return f }); err != nil {
+		w.fail("C17", "overlapping-close scenario: %v", err)
+	}
+	var prov Provider
+	var err error
+	if guard(w, "Build", func() { prov, err = c.Build() }) || err != nil {
+		w.fail("C08", "overlapping-close scenario: Build failed: %v", err)
+		r.emit("p verdict", "ok")
+		return
+	}
+	r.stats["overlapping_close"]++
+	parent, e1 := prov.CreateScope(nil)
+	if e1 != nil {
+		w.fail("C08", "overlapping-close scenario: CreateScope failed: %v", e1)
+		r.emit("p verdict", "ok")
+		return
+	}
+	target := parent
+	if mode == 1 {
+		if target, e1 = parent.CreateScope(nil); e1 != nil {
+			w.fail("C08", "overlapping-close scenario: CreateScope failed: %v", e1)
+			r.emit("p verdict", "ok")
+			return
+		}
+	}
+	if _, e := Resolve[*voF](target); e != nil {
+		w.fail("C08", "overlapping-close scenario: resolution failed: %v", e)
+	}
+	first := make(chan error, 1)
+	go func() { first <- target.Close() }()
+	select {
+	case <-f.entered:
+	case <-time.After(10 * time.Second):
+		w.fail("C12,C13", "overlapping-close scenario: Close never reached the instance")
+		r.emit("p verdict", "ok")
+		return
+	}
+	// the disposal is in flight; now the overlapping calls
+	n := 2 + rng.Intn(2)
+	others := make(chan error, n)
+	for k := 0; k < n; k++ {
+		go func() { others <- target.Close() }()
+	}
+	var owner chan error
+	if mode != 0 {
+		owner = make(chan error, 1)
+		go func() {
+			if mode == 1 {
+				owner <- parent.Close()
+			} else {
+				owner <- prov.Close()
+			}
+		}()
+	}
+	time.Sleep(30 * time.Millisecond) // let them reach the wait
+	select {
+	case e := <-others:
+		w.fail("C12,C11", "a Close overlapping the disposal of the same scope returned (%v) while the instance's Close was still running", e)
+	default:
+	}
+	if owner != nil {
+		select {
+		case e := <-owner:
+			w.fail("C12,C11", "the Close of the owner returned (%v) while the disposal of its scope was still running", e)
+		default:
+		}
+	}
+	close(f.release)
+	wait := func(ch chan error, what string) (error, bool) {
+		select {
+		case e := <-ch:
+			return e, true
+		case <-time.After(10 * time.Second):
+			w.fail("C12,C13,C09", "%s never returned", what)
+			return nil, false
+		}
+	}
+	var de *DisposalError
+	if e, ok := wait(first, "the Close that performs the disposal"); ok && (e == nil || !errors.As(e, &de)) {
+		w.fail("C12", "the Close that performed the disposal returned %v although the instance's Close failed", e)
+	}
+	for k := 0; k < n; k++ {
+		if e, ok := wait(others, "an overlapping Close"); ok && e != nil {
+			w.fail("C12", "a Close that overlapped the disposal (and did not perform it) returned %v, want nil", e)
+		}
+	}
+	if owner != nil {
+		if e, ok := wait(owner, "the Close of the owner"); ok && (e == nil || !errors.As(e, &de)) {
+			w.fail("C12", "the Close of the %s returned %v although an instance in its subtree failed to close",
+				map[int]string{1: "parent scope", 2: "provider"}[mode], e)
+		}
+	}
+	if e := target.Close(); e != nil {
+		w.fail("C12", "a later Close returned %v", e)
+	}
+	prov.Close()
+	if k := f.closes.Load(); k != 1 {
+		w.fail("C10,C12", "the instance was closed %d times", k)
+	}
+	r.emit("p verdict", "ok")
+}
+
 // oddShapes: dependency shapes the generic generator cannot build with reflect.StructOf / MakeFunc — a
 // parameter object with an EMBEDDED dependency field, and a plain (ungrouped) dependency of slice type.
 // Monitors only (a test of these shapes, not a proof): Build's verdict against the reference verdict of the
@@ -2683,6 +2887,10 @@ func TestVerifCore(t *testing.T) {
 		}
 		if it%50 == 41 {
 			r.midCreation(rng)
+			continue
+		}
+		if it%50 == 43 {
+			r.overlappingClose(rng)
 			continue
 		}
 		r.scenario(rng, o)
